@@ -76,5 +76,6 @@ Directive(r, secret) ==
         part(k) == IF Len(parts) >= k THEN parts[k] ELSE <<>>
     IN [creqPre |-> Shortest(r.creqPres), payload |-> r.payload,
         stsPre  |-> bAlgorithm \o <<LF>> \o Compact(r.inst) \o <<LF>> \o Join(Tail(parts), <<SLASH>>) \o <<LF>>,
-        secret  |-> secret, kdate |-> part(2), region |-> part(3), service |-> part(4)]
+        secret  |-> secret, kdate |-> part(2), region |-> part(3), service |-> part(4),
+        payloadhex |-> <<>>, rawkey |-> <<>>]
 =============================================================================
